@@ -166,7 +166,7 @@ def substitute(text, params):
 # --------------------------------------------------------------------------- kani output
 
 CHECK_RE = re.compile(
-    r"^Check (\d+): (\S+)\n\s+- Status: (\w+)\n\s+- Description: \"(.*?)\"\n\s+- Location: (.*?)$",
+    r"^Check (\d+): ([^\n]+)\n\s+- Status: (\w+)\n\s+- Description: \"(.*?)\"\n\s+- Location: (.*?)$",
     re.M | re.S)
 
 
@@ -198,7 +198,8 @@ def classify(h, parsed, rc, timed_out):
     asserts = [c for c in checks if ".cover." not in c["id"]]
     fails = [c for c in asserts if c["status"] == "FAILURE"]
     unwind = [c for c in fails if c["description"].startswith("unwinding assertion")]
-    unsupported = [c for c in fails if ".unsupported_construct." in c["id"] or "is not currently supported by Kani" in c["description"]]
+    unsupported = [c for c in fails if ".unsupported_construct." in c["id"] or "is not currently supported by Kani" in c["description"]
+                   or "getrandom" in c["location"]]
     real = [c for c in fails if c not in unwind and c not in unsupported]
     d = {"obligations": len(asserts), "discharged": sum(1 for c in asserts if c["status"] == "SUCCESS"),
          "unreachable": sum(1 for c in asserts if c["status"] == "UNREACHABLE"),
@@ -556,7 +557,9 @@ def decide(prop, tier, seed, keep=False, only=None, jobs=None):
             if h.finding:
                 f = fmap[h.finding]
                 if r["verdict"] == "fail":
-                    lines.append("KNOWN-FINDING: property=%s %s: %s" % (prop, f["id"], f["what_fails"]))
+                    l = "KNOWN-FINDING: property=%s %s: %s" % (prop, f["id"], f["what_fails"])
+                    if l not in lines:
+                        lines.append(l)
                     r["known_finding"] = f["id"]
                 elif r["verdict"] == "pass":
                     log("   note: listed finding %s no longer reproduces in %s" % (f["id"], h.name))
